@@ -103,11 +103,20 @@ def run_case(rng, cdc_text, method, weight, fix_frac, constraints=False):
                 res["problems"].append("table reports %s.%s = %r but the returned circuit has %r" % (
                     name, k, fit.parameters[name][k].value if k in fit.parameters[name] else None, v[k]))
     if cexpr:
+        # the constraint must hold for the values of the RETURNED circuit (and for lmfit's own parameters)
+        from pyimpspec.analysis.fitting import generate_fit_identifiers as gfi
+        cvals = {}
+        for el_, names in gfi(fc).items():
+            for k_, nm in names.items():
+                cvals[nm] = el_.get_value(k_)
         vals = fit.minimizer_result.params.valuesdict()
         for b, ex in cexpr.items():
             a = ex.split(" * ")[0]
             if abs(vals[b] - 2 * vals[a]) > 1e-9 * abs(vals[b]):
-                res["problems"].append("constraint %s = %s violated: %r vs %r" % (b, ex, vals[b], vals[a]))
+                res["problems"].append("constraint %s = %s violated by lmfit's parameters: %r vs %r" % (b, ex, vals[b], vals[a]))
+            if a not in cvals or b not in cvals or abs(cvals[b] - 2 * cvals[a]) > 1e-9 * abs(cvals[b]):
+                res["problems"].append("constraint %s = %s violated in the returned circuit: %r vs %r" % (b, ex, cvals.get(b), cvals.get(a)))
+        res["constrained"] = True
     # for the Coq correspondence: the circuit as written back, variable names, parameter values, the observed table
     clit, _ = circuit_lit(fc)
     mr = fit.minimizer_result
@@ -151,6 +160,9 @@ def run(rep, tier, seed, tr_errors):
         fam = rng.choice(FAMILIES + [ladder(rng.choice([5, 6]))])
         plan.append((fam, rng.choice(methods), rng.choice(weights), rng.choice([0.0, 0.3, 0.5]), rng.random() < 0.25))
     plan.append((ladder(6), "leastsq", "boukamp", 0.2, False))          # 13 elements: running identifiers 0..12
+    # constraint expressions are always exercised (several methods), not left to chance
+    for m_, w_ in (("least_squares", "boukamp"), ("leastsq", "modulus"), ("powell", "proportional")) if tier == "quick" else [(m__, w__) for m__ in methods for w__ in weights[:2]]:
+        plan.append((FAMILIES[2], m_, w_, 0.0, True))
     n_auto = 2 if tier == "quick" else 12
     for i in range(n_auto):
         plan.append((FAMILIES[i % len(FAMILIES)], "auto", "auto", 0.0, False))
@@ -170,7 +182,7 @@ def run(rep, tier, seed, tr_errors):
         cases.append((i, res["coq"]))
         if m == "auto":
             attempted += 1
-            recovered += 1 if (res["recovered"] and res["pseudo_chisqr"] < 1e-10) else 0
+            recovered += 1 if (res["recovered"] and res["pseudo_chisqr"] < 1e-6) else 0
         rep.distinct.add(json.dumps([fam, m, w, ff, con]))
     rep.samples = [{"family": p[0], "method": p[1], "weight": p[2], "fixed_fraction": p[3], "constraint": p[4]} for p in plan[:3]]
     outs = lib.run_shards(PROP, HEADER, [shard_text(cases[j:j + 40]) for j in range(0, len(cases), 40)])
@@ -183,7 +195,7 @@ def run(rep, tier, seed, tr_errors):
     rep.oblige("correspondence:Fit.v-extract-vs-_extract_parameters", not mism and not broken, "%d fits, %d mismatches, %d shards failed" % (len(cases), len(mism), len(broken)))
     rep.oblige("invariants-on-every-fit (bounds, fixed exact, constraints, table = circuit)", not problems, "%d fits with problems" % len(problems))
     rep.oblige("input-circuit-untouched", not untouched_bad, "%d" % len(untouched_bad))
-    rep.extra["support_runs"] = {"auto_recovery": {"attempted": attempted, "recovered_to_1e-3_with_chisqr_below_1e-10": recovered}}
+    rep.extra["support_runs"] = {"auto_recovery": {"attempted": attempted, "recovered_to_1e-3_with_chisqr_below_1e-6": recovered}}
     rep.oblige("recovery-with-default-auto (exercised, not proved)", recovered == attempted, "%d of %d" % (recovered, attempted))
     for fam, m, w, pr in problems[:4]:
         rep.violation("fit_%d" % (abs(hash((fam, m, w))) % 100000), {"kind": "counterexample", "obligation": "fit invariants", "input": {"circuit": fam, "method": m, "weight": w, "problems": pr}})
